@@ -8,7 +8,7 @@ COMMON_ASSUMPTIONS = [
     "documentation and the property statements and shares no code with compiler.hpp",
     "tier A bypasses the template front-end: class_info / definition_info records are populated by the harness exactly "
     "as class_declaration / add_function would, real method<> objects, real update<Policy>() and real call path",
-    "g++ 12 / clang 14, x86-64 Linux only; graphs <= 48 classes, arity <= 4",
+    "g++ 12 / clang 14, x86-64 Linux only; graphs <= 96 classes, arity <= 4",
 ]
 
 RULES = {
@@ -234,13 +234,15 @@ def harness_plan(prop, tier, quick, thorough, min_eval=1000, policy=None, extra=
     """quick / thorough: list of (flavour, processes, cases per process)"""
     c = Check(prop, tier, RULES[prop], level=level, assumptions=COMMON_ASSUMPTIONS + (assumptions or []),
               min_evaluations=min_eval)
-    if prop in ("C01", "C03", "C04", "C07", "C13", "C17"):
+    traced = {"C01": 60, "C02": 60, "C03": 60, "C04": 60, "C05": 60, "C06": 40, "C07": 60, "C08": 40, "C09": 60, "C10": 20,
+              "C12": 60, "C13": 60, "C14": 40, "C15": 60, "C17": 60}
+    if prop in traced:
         # the same workload with the documented run-time trace switched on (YOMM2_TRACE=1), on the
         # policies that have the trace facet: code under 'if (trace_enabled)' runs too
         from vfcheck import Job as _Job
         for i, s in enumerate(seeds(2 if tier == "quick" else 6, 4242 + sum(map(ord, prop)))):
-            c.add(_Job("rel" if i % 2 == 0 else "asan", prop, s, 60 if tier == "quick" else 1500,
-                       policy="P_dbg,P_thr,P_indc,P_proj,P_def,P_b", trace=True, timeout=3600 if tier == "quick" else 6 * 3600))
+            c.add(_Job("rel" if i % 2 == 0 else "asan", prop, s, traced[prop] if tier == "quick" else traced[prop] * 25,
+                       policy="P_dbg,P_thr,P_indc,P_proj,P_def,P_b,P_c", trace=True, timeout=3600 if tier == "quick" else 6 * 3600))
     if prop in ("C01", "C02", "C03", "C08", "C09", "C15", "C17"):
         c.post = disp_post
     if prop == "C07":
